@@ -34,7 +34,7 @@ META = {
                    "ixseps1/2, jyseps*, ny_inner are executed with every size option a z3 Int >= 1; claims are LIA queries.",
     "bounds": "all per-region nx/ny sizes symbolic and unbounded above (>=1); y_boundary_guards enumerated 0..2 (quick) / 0..4 (thorough); "
               "topologies LSN, USN, CDN, LDN, UDN and LSN/CDN/LDN/UDN with start_at_upper_outer; nx_inter_sep symbolic >=1 for disconnected DN.",
-    "out": "coincidence of corner *coordinates* on shared edges (geometry; needs the numerical pipeline); theta/chi values; circular/TORPEX builders (see obligations list).",
+    "out": "coincidence of corner *coordinates* on shared x-edges (contours are shared objects there) beyond the getRZBoundary copy on y-edges; theta/chi values.",
     "assumptions": ["findLegs, coreRegionToRegion, segmentsWithPsivals (numerics) are stubbed: only sizes matter here",
                     "MeshRegion is replaced by a record stub (id, connections); EquilibriumRegion.getRegridded -> identity",
                     "BOUT++ reference semantics of ixseps/jyseps/ny_inner/y_boundary_guards written in this harness from the BOUT++ manual (BoutMesh::topology): "
@@ -504,3 +504,10 @@ for _g in (0, 1, 2, 3):
                           encodes=["hypnotoad.cases.torpex:TORPEXMagneticField.makeRegions"] + ENC[3:],
                           stubs=["findRoots_1d", "wallPosition", "wallVector", "getRefined -> identity", "getSmoothMonotonicGridFunc/make1dGrid -> placeholder", "MeshRegion -> record"],
                           bounds="nx_core, nx_sol and the four leg ny >= 1 symbolic (unbounded), y_boundary_guards=%d" % _g))
+
+import harness.c01 as _c01  # noqa: E402
+OBLIGATIONS.append(Ob("shared_y_edge_points_coincide", _c01._mk_rzboundary(True), tier="quick", family="getRZBoundary",
+                      desc="after getRZBoundary the points on the y-edge shared with the upper neighbour coincide with the neighbour's (both coordinates, ylow and corners)",
+                      encodes=["hypnotoad.core.mesh:MeshRegion.getRZBoundary"], bounds="nx=1, ny=2, all coordinates symbolic"))
+OBLIGATIONS.append(Ob("global_index_map_of_output_arrays", _c01.ob_global_arrays, tier="quick", family="addFromRegions", encodes=["hypnotoad.core.mesh:BoutMesh.geometry"],
+                      desc="the region_indices slices place every region value (all locations and corner variants) at its global index", bounds="2x2 block layout, all values symbolic"))
